@@ -34,6 +34,7 @@ STAGE1_CFG = """SPECIFICATION Spec
 CONSTANTS Routes <- {routes}
   Backends <- AllBackends
   Hosts <- {hosts}
+  Sans <- {sans}
   KnownDefects <- {defects}
   EmitMode = "sel"
   ShardLo = 0
@@ -61,6 +62,7 @@ EMIT_CFG = """SPECIFICATION EmitSpec
 CONSTANTS Routes <- AllRoutes
   Backends <- AllBackends
   Hosts <- AllHosts
+  Sans <- AllSans
   KnownDefects <- AllKnownDefects
   EmitMode = "{mode}"
   ShardLo = {lo}
@@ -74,11 +76,12 @@ TRACE_CFG = """SPECIFICATION TSpec
 CONSTANTS Routes <- TrRoutes
   Backends <- TrBackends
   Hosts <- TrHosts
+  Sans <- TrSans
   KnownDefects <- AllKnownDefects
 CHECK_DEADLOCK FALSE
 """
 MODEL_ACTIONS = ["DeriveCertReqs", "Dial", "ProxyHandshake", "Tunnel", "BuildContext", "DecideWhoChecksHostname",
-                 "Handshake", "AssertFingerprint", "MatchHostname", "NoPostHandshakeCheck", "ComputeIsVerified",
+                 "LoadCAs", "Handshake", "AssertFingerprint", "MatchHostname", "NoPostHandshakeCheck", "ComputeIsVerified",
                  "Warn", "SendRequest"]
 CLASSES = ["SSLErrorBeforeRequest", "SentVerified", "SentUnverifiedWarned", "ConfigRefused"]
 NWORKERS = int(os.environ.get("VERIF_JOBS") or 0) or os.cpu_count() or 4   # size of every process pool
@@ -295,7 +298,7 @@ def facts_of(clause, case):
     p = case["point"]
     obs = case["observed"]
     return {"clause": clause, "route": p["route"], "backend": p["backend"], "reqs": p["reqs"], "fp": p["fp"],
-            "ctx": p["ctx"], "ah": p["ah"], "expect": case.get("expect"), "mode": case.get("mode"),
+            "ctx": p["ctx"], "casrc": p.get("casrc"), "issuer": p["issuer"], "ah": p["ah"], "expect": case.get("expect"), "mode": case.get("mode"),
             "warned": bool(obs["warned"]),
             "reported_verified": any(x["at"] == "request" and x["v"] for x in obs["seen"]),
             "proxy_reported_verified": any(x["at"] == "request" and x["pv"] == "true" for x in obs["seen"]),
@@ -319,21 +322,53 @@ def report_bad(rep, findings, clause, case):
 
 
 # ------------------------------------------------------------------------------------ run
-def stage1(rep, routes, hosts, live=False, defects=False):
+REFUTE_CFG = """SPECIFICATION Spec
+CONSTANTS Routes <- DirectRoute
+  Backends <- AllBackends
+  Hosts <- DnsHostOnly
+  Sans <- TwoSans
+  KnownDefects <- OnlyDefaultStoreDeviation
+  EmitMode = "sel"
+  ShardLo = 0
+  ShardHi = 0
+  ShardK = 1
+  ShardS = 0
+INVARIANT SentImpliesDemandedPassed
+CHECK_DEADLOCK FALSE
+"""
+
+
+def refute_deviation(rep):
+    """The named deviation DefaultStoreAlsoTrusted (load_default_certs guard forgets ca_cert_data) is not
+    in the code; TLC must REFUTE it: with the deviation switched on the model has to violate
+    SentImpliesDemandedPassed.  A spec that cannot see the deviation is a machinery failure."""
+    r = tlc.run("MC_TLSVerify", REFUTE_CFG, workers="auto", files={"sel.json": "[]"}, env={"SEL_FILE": "sel.json"},
+                heap="3g", timeout=3600, expect_fail=True)
+    rep.stage1.append({"run": "MC_TLSVerify refute DefaultStoreAlsoTrusted (violation expected)",
+                       "distinct_states": r.distinct, "states_generated": r.generated, "depth": r.depth,
+                       "wall_s": round(r.wall, 2), "violated": r.violated})
+    if "SentImpliesDemandedPassed" not in r.violated:
+        raise tlc.MachineryError("TLC did not refute the deviation DefaultStoreAlsoTrusted: the specification cannot "
+                                 f"see a default trust store loaded next to ca_cert_data ({r.violated}, {r.error})")
+    rep.extra["refuted_deviations"] = ["DefaultStoreAlsoTrusted"]
+
+
+def stage1(rep, routes, hosts, sans="AllSans", live=False, defects=False):
     """One exhaustive TLC run over a sub-lattice.  defects=False: the design the property asks for
     (KnownDefects = {}), every clause strict.  defects=True: the Model of the code as it is; the
     warning clause may fail only on the recorded signature, and must fail there."""
-    cfg = STAGE1_CFG.format(routes=routes, hosts=hosts, live="PROPERTY EveryAttemptConcludes\n" if live else "",
+    cfg = STAGE1_CFG.format(routes=routes, hosts=hosts, sans=sans, live="PROPERTY EveryAttemptConcludes\n" if live else "",
                             defects="AllKnownDefects" if defects else "NoDefects",
                             strict=MODULO_KNOWN if defects else STRICT)
     r = tlc.run("MC_TLSVerify", cfg, workers="auto", coverage=True, files={"sel.json": "[]"},
                 env={"SEL_FILE": "sel.json"}, heap="3g", timeout=7200)
-    rep.add_tlc(f"MC_TLSVerify Routes={routes} Hosts={hosts} KnownDefects={'all' if defects else '{}'}"
+    rep.add_tlc(f"MC_TLSVerify Routes={routes} Hosts={hosts} Sans={sans} KnownDefects={'all' if defects else '{}'}"
                 + (" +liveness" if live else ""), r)
     if r.violated:
         rep.violation("ModelViolatesRules", f"TLC: {r.violated} violated by the decision model of TLSVerify.tla "
-                      f"(Routes={routes} Hosts={hosts} defects={defects})",
-                      {"kind": "stage1", "violated": r.violated, "routes": routes, "hosts": hosts, "defects": defects})
+                      f"(Routes={routes} Hosts={hosts} Sans={sans} defects={defects})",
+                      {"kind": "stage1", "violated": r.violated, "routes": routes, "hosts": hosts, "sans": sans,
+                       "defects": defects})
     cov = {k: v[1] for k, v in r.coverage.items()}
     need = list(MODEL_ACTIONS)
     if routes in ("NoTlsProxyRoutes", "DirectRoute"):
@@ -355,7 +390,7 @@ def stage1(rep, routes, hosts, live=False, defects=False):
     lat = [json.loads(x) for x in tagged_strings(r.out, "LATTICE")]
     if not lat:
         raise tlc.MachineryError("MC_TLSVerify did not print its LATTICE line")
-    key = f"{routes}/{hosts}/{'asis' if defects else 'design'}"
+    key = f"{routes}/{hosts}/{sans}/{'asis' if defects else 'design'}"
     rep.extra.setdefault("stage1_outcome_classes", {})[key] = dict({c: cov.get("Report" + c, 0) for c in CLASSES},
                                                                  Anomalous=anomalous)
     rep.extra.setdefault("stage1_action_coverage", {})[key] = {a: cov.get(a, 0) for a in MODEL_ACTIONS}
@@ -365,7 +400,7 @@ def stage1(rep, routes, hosts, live=False, defects=False):
 def run(rep):
     quick = rep.tier == "quick"
     rep.rule = ("one case = one lattice point (cert_reqs x assert_hostname x assert_fingerprint x server_hostname x "
-                "ssl_context x backend x route x issuer x SAN shape x host form) executed with a real TLS handshake; "
+                "ssl_context x CA source (ca_certs / ca_cert_data / ca_cert_dir / caller context / none = default store) x backend x route x issuer x SAN shape x host form) executed with a real TLS handshake; "
                 "non-trivial = the Rules expect anything other than a plain verified send (a demanded check fails, "
                 "latitude applies, the config is refused, or the connection is unvalidated and must warn)")
     rep.assumptions = ["chain validation, digests and the handshake are OpenSSL's (environment facts fixed by how "
@@ -374,13 +409,17 @@ def run(rep):
     findings = known.load("C07")
     if quick:
         # the model distinguishes host spellings only as DNS name vs IP literal
-        lattice, npoints = stage1(rep, "AllRoutes", "DnsHostOnly")
-        stage1(rep, "DirectRoute", "IpHostOnly")
-        stage1(rep, "PinnedRoute", "DnsHostOnly", defects=True)
+        # (and SAN shapes only through the name-truth table: DNS-type shapes with the DNS host, the rest with the IP)
+        # (and SAN shapes only through the name-truth table; exact / cn_only / ip_mismatch give pass / cn / fail
+        # for the DNS host.  IP hosts, the other shapes and the model-checking refutation run: thorough tier;
+        # the deviation is refuted on its witness by an ASSUME of MC_TLSVerify in every run)
+        lattice, npoints = stage1(rep, "AllRoutes", "DnsHostOnly", "QuickSans")
+        stage1(rep, "PinnedRoute", "DnsHostOnly", "TwoSans", defects=True)
     else:
-        stage1(rep, "NoTlsProxyRoutes", "SmallHosts", live=True)
+        stage1(rep, "NoTlsProxyRoutes", "SmallHosts", "DnsSans", live=True)
         lattice, npoints = stage1(rep, "AllRoutes", "AllHosts")
         stage1(rep, "PinnedRoute", "AllHosts", defects=True)
+        refute_deviation(rep)
     factors = lattice["factors"]
     radices = [len(f["levels"]) for f in factors]
     if factors[-1]["name"] != "stack":
@@ -462,7 +501,8 @@ def replay(rep, path):
     findings = known.load("C07")
     rep.rule = "replay of one recorded lattice point"
     if case.get("kind") == "stage1":
-        stage1(rep, case.get("routes", "AllRoutes"), case.get("hosts", "AllHosts"), defects=case.get("defects", False))
+        stage1(rep, case.get("routes", "AllRoutes"), case.get("hosts", "AllHosts"), case.get("sans", "AllSans"),
+               defects=case.get("defects", False))
         return
     backend = case["point"]["backend"]
     out = _replay_one(case, backend)
